@@ -87,7 +87,8 @@ def plan(tier, seed):
 def floors(tier):
     return {'evaluations': 3000, 'distinct_nontrivial': 20000, 'token_streams_compared': 100000,
             'parses_compared': 30000, 'sub_context_receiver_unchanged': 10000,
-            'hist:bias:math-then-delims': 200}
+            'hist:bias:math-then-delims': 200, 'chains_with_sibling_derivations': 300,
+            'hist:bias:leave-and-reenter-math': 100, 'hist:bias:reclassify-math-delimiters': 100}
 
 
 def setup(rec):
@@ -149,13 +150,36 @@ def deep_fields(ps):
     return {k: (copy.deepcopy(v) if isinstance(v, (list, dict, set)) else v) for k, v in ps.get_fields().items()}
 
 
-def build(chain, with_ctx):
-    """Returns (derived, fresh, error)"""
+def model_after(model, kw):
+    m = dict(model)
+    m.update(kw)
+    for k, dflt in LIST_DEFAULTS.items():
+        if m.get(k) is None:
+            m[k] = list(dflt)
+    if not m['in_math_mode']:
+        m['math_mode_delimiter'] = None
+    return m
+
+
+def build(chain, with_ctx, siblings=None):
+    """Returns (derived, fresh, error).  siblings: {step index: [kw, ...]} -- other states derived from the same receiver just
+    before that step of the chain (one state usually has many children: every formula, group and argument of a document)."""
     ps = ParsingState(s=None, latex_context=(default_ctx() if with_ctx else None))
     model = deep_fields(ps)
     ancestors = []
-    for kw in chain:
+    for si, kw in enumerate(chain):
         kw = detuple(kw)
+        for skw in (siblings or {}).get(str(si), []):
+            skw = detuple(skw)
+            try:
+                sib = ps.sub_context(**skw)
+            except Exception as e:
+                return None, None, 'sub_context(%r) raised %s: %s' % (skw, type(e).__name__, e)
+            want = model_after(model, skw)
+            got = sib.get_fields()
+            if got != want:
+                return None, None, 'fields of the sibling derived with sub_context(%r) are %r, expected %r' % (
+                    skw, {k: got[k] for k in got if got[k] != want.get(k)}, {k: want[k] for k in got if got[k] != want.get(k)})
         before = deep_fields(ps)
         ancestors.append((ps, before))
         try:
@@ -196,7 +220,7 @@ def build(chain, with_ctx):
 def check_case(case, rec):
     chain = case['chain']
     with_ctx = case.get('with_ctx', True)
-    derived, fresh, err = build(chain, with_ctx)
+    derived, fresh, err = build(chain, with_ctx, case.get('siblings'))
     for cname, msg in contracts.drain():
         rec.violation(case, 'contract %s: %s | chain %r' % (cname, msg, chain), mech='contract')
     if err:
@@ -320,6 +344,16 @@ def run_shard(desc, rec):
             strs = strings_for(rng, desc['L'], desc['sthin'], i)
             rec.case()
             case = {'chain': chain, 'strings': strs, 'with_ctx': rng.random() < 0.5}
+            if rng.random() < 0.4:
+                # siblings: the receiver of one step is asked for other, similar children first
+                si = rng.randrange(len(chain))
+                st = chain[si]
+                cands = [dict(st, math_mode_delimiter=None), {k: v for k, v in st.items() if k != 'math_mode_delimiter'},
+                         dict(st, math_mode_delimiter='$'), dict(st, in_math_mode=True), {'in_math_mode': True},
+                         {'in_math_mode': True, 'math_mode_delimiter': None}, dict(rng.choice(chain))]
+                cands = [c for c in cands if c]
+                case['siblings'] = {str(si): [rng.choice(cands) for _ in range(rng.randint(1, 2))]}
+                rec.monitor('chains_with_sibling_derivations')
             if i % 100 == 0:
                 rec.sample({'chain': chain, 'strings': strs[:5]})
             check_case(case, rec)
